@@ -359,6 +359,9 @@ func (g *gen) ingestOp(rangeKeys bool, excise bool) DBOp {
 					continue
 				}
 				k := pick(&g.r, []string{"set", "set", "set", "del", "merge"})
+				if k == "merge" && g.disabled["merge"] {
+					k = "set"
+				}
 				so := DBOp{K: k, Key: p + s}
 				if k != "del" {
 					so.Val, so.VLen = g.val()
@@ -398,7 +401,44 @@ func (g *gen) add(o DBOp) { g.ops = append(g.ops, o) }
 func (g *gen) newID() int { g.nextID++; return g.nextID }
 
 // dbProfiles lists the profiles of the whole-DB engine.
-var dbProfiles = map[string]bool{"latest": true, "crash": true, "crash-sync": true, "flushdur": true}
+var dbProfiles = map[string]bool{"latest": true, "crash": true, "crash-sync": true, "flushdur": true,
+	"iterpos": true, "snap": true, "iterview": true, "ibatch": true, "rangekey": true, "masking": true,
+	"levels": true, "close": true, "ingest": true, "efos": true, "checkpoint": true, "scaninternal": true, "maint": true, "valsep": true}
+
+// mixProfiles are the profiles generated by genMixed.
+func mixProfile(profile string, g *gen) (mixW, bool) {
+	switch profile {
+	case "iterpos": // C02
+		return mixW{write: 30, ingest: 2, flush: 4, compact: 3, scan: 1, iter: 60, iterOpsPerStep: 8}, true
+	case "snap": // C03
+		return mixW{write: 45, ingest: 3, ingestExcise: 1, excise: 2, flush: 6, compact: 5, scan: 2, snap: 30, ratchet: 2, wait: 1, longLived: true}, true
+	case "iterview": // C04
+		return mixW{write: 40, ingest: 4, ingestExcise: 1, excise: 3, flush: 7, compact: 6, scan: 1, iter: 30, ibatch: 12, longLived: true, iterOpsPerStep: 3}, true
+	case "ibatch": // C05
+		return mixW{write: 20, flush: 3, compact: 2, ingest: 1, ibatch: 70, iter: 10, rangeKeys: g.r.IntN(2) == 0, iterOpsPerStep: 4}, true
+	case "rangekey": // C08
+		return mixW{write: 40, ingest: 4, flush: 5, compact: 4, scan: 1, iter: 50, rangeKeys: true, iterOpsPerStep: 6}, true
+	case "masking": // C09
+		return mixW{write: 40, ingest: 3, flush: 6, compact: 4, iter: 50, rangeKeys: true, masking: true, iterOpsPerStep: 6}, true
+	case "levels": // C15
+		return mixW{write: 50, ingest: 10, ingestExcise: 4, excise: 5, flush: 8, compact: 6, scan: 1, reopen: 1, wait: 1, rangeKeys: g.r.IntN(2) == 0}, true
+	case "close": // C47
+		return mixW{write: 50, ingest: 5, excise: 2, flush: 6, compact: 5, scan: 2, reopen: 8, snap: 6, iter: 8, ibatch: 4, wait: 1, rangeKeys: g.r.IntN(2) == 0}, true
+	case "ingest": // C36
+		return mixW{write: 35, ingest: 14, ingestExcise: 7, excise: 7, flush: 6, compact: 5, scan: 3, iter: 14, snap: 6, rangeKeys: g.r.IntN(2) == 0, longLived: true, iterOpsPerStep: 3}, true
+	case "efos": // C37
+		return mixW{write: 40, ingest: 4, ingestExcise: 5, excise: 6, flush: 8, compact: 6, efos: 6, snap: 25, longLived: true}, true
+	case "checkpoint": // C38
+		return mixW{write: 55, ingest: 4, excise: 2, flush: 5, compact: 4, checkpoint: 12, scan: 1, rangeKeys: g.r.IntN(2) == 0}, true
+	case "scaninternal": // C45
+		return mixW{write: 55, ingest: 5, excise: 2, flush: 7, compact: 5, scanInternal: 12, scan: 1, rangeKeys: g.r.IntN(2) == 0}, true
+	case "maint": // C14
+		return mixW{write: 40, ingest: 4, ingestExcise: 2, excise: 3, flush: 10, compact: 10, snap: 14, efos: 2, iter: 12, ratchet: 2, wait: 3, scan: 2, rangeKeys: g.r.IntN(2) == 0, longLived: true, iterOpsPerStep: 3}, true
+	case "valsep": // C44
+		return mixW{write: 55, ingest: 4, flush: 10, compact: 10, snap: 8, iter: 8, scan: 3, reopen: 2, wait: 2, longLived: true, iterOpsPerStep: 4}, true
+	}
+	return mixW{}, false
+}
 
 // forkPolicy returns how crash forks are taken for a profile and tier.
 func forkPolicy(profile, tier string) (mode string, n int) {
@@ -489,9 +529,37 @@ func (e *dbEngine) Generate(profile string, seed uint64, tier string) (*Plan, er
 			g.disabled[k] = true
 		}
 	}
+	if profile == "scaninternal" {
+		// ScanInternal does not support MERGE keys (it panics with "cannot
+		// process merge key in point collapsing iterator"): precondition.
+		g.disabled["merge"] = true
+		g.disabled["singledel"] = true // likewise unsupported by ScanInternal
+	}
 	nops := 40 + g.r.IntN(160)
 	if tier == "thorough" {
 		nops = 40 + g.r.IntN(400)
+	}
+	if w, ok := mixProfile(profile, g); ok {
+		if profile == "valsep" {
+			g.cfg.ValueSep = true
+			g.cfg.ValueSepMin = pick(&g.r, []int{1, 8, 32, 100})
+			g.cfg.FMV = 0
+		}
+		if profile == "efos" || profile == "checkpoint" || profile == "scaninternal" {
+			g.cfg.FMV = 0
+		}
+		if profile == "maint" && g.r.IntN(2) == 0 {
+			g.cfg.ValueSep = true
+			g.cfg.ValueSepMin = pick(&g.r, []int{1, 16})
+		}
+		if profile == "masking" {
+			g.cfg.BlockPropCollector = true
+			if g.cfg.Suffixes < 2 {
+				g.cfg.Suffixes = 2 + g.r.IntN(3)
+				g.keyspace()
+			}
+		}
+		g.genMixed(nops, w)
 	}
 	switch profile {
 	case "latest":
